@@ -249,21 +249,44 @@ package lua
 //@ func (*LState).pushCallFrame [C02 C10 C12]
 //@ requires ls != nil && ls.reg != nil && Inv_reg(ls.reg) && ls.stack != nil && $inv(ls.stack) && cfValid(ls, cf) && fn != nil
 //@ cut@"nvarargs := nargs - np" the vararg relocation of the inlined initCallFrame is not verified yet
-//@ ensures  $inv(ls.stack) && $sp(ls.stack) == old($sp(ls.stack)) + 1 && ls.currentFrame == $frame(ls.stack, old($sp(ls.stack))) && ls.currentFrame != nil
+//@ ensures  $inv(ls.stack) && $sp(ls.stack) == old($sp(ls.stack)) + 1 && $sp(ls.stack) >= 1 && ls.currentFrame == $frame(ls.stack, old($sp(ls.stack))) && ls.currentFrame != nil && Inv_reg(ls.reg) && ls.reg == old(ls.reg)
+//@ ensures  ls.currentFrame.Fn.IsG ==> ls.currentFrame.LocalBase == cf.LocalBase && ls.reg.top == cf.LocalBase + cf.NArgs + ite(meta, 1, 0)
 //@ ensures  ls.currentFrame.Fn == cf.Fn && ls.currentFrame.Fn != nil && ls.currentFrame.Parent == cf.Parent && ls.currentFrame.Base == cf.Base && ls.currentFrame.ReturnBase == cf.ReturnBase && ls.currentFrame.NRet == cf.NRet && ls.currentFrame.NArgs == cf.NArgs + ite(meta, 1, 0) && ls.currentFrame.Pc == cf.Pc && ls.currentFrame.TailCall == cf.TailCall && ls.currentFrame.Idx == old($sp(ls.stack))
 //@ ensures  forall i int :: 0 <= i && i < old($sp(ls.stack)) ==> $frame(ls.stack, i) == old($frame(ls.stack, i)) && unchanged($frame(ls.stack, i))
 //@ modifies ghost(ls.stack), type callFrame.*, ls.currentFrame, ls.reg.array, ls.reg.top, ls.reg.array[*]
 
-//@ trusted callGFunction [C02 C06 C10]
-//@ assume callGFunction runs an arbitrary host function; its result adjustment (CopyRange of the top-most gfnret values) is verified separately below; every frame on the call stack has a non-nil function (pushCallFrame refuses nil)
-//@ ensures L.currentFrame != nil ==> L.currentFrame.Fn != nil
+// Host functions: a call through an LGFunction value runs arbitrary Go code. Assumed (call discipline + "a host
+// function returns at most as many values as its activation holds", DESIGN.md §7): same current frame and registry,
+// frame header unchanged, stack of frames unchanged, registers valid.
+//@ dyn LGFunction [C02 C06 C10]
+//@ assume host functions keep the call discipline and return at most GetTop() values (or a negative count to yield)
+//@ requires arg0 != nil
+//@ ensures  arg0.reg == old(arg0.reg) && arg0.reg != nil && Inv_reg(arg0.reg) && arg0.currentFrame == old(arg0.currentFrame) && unchanged(arg0.currentFrame) && arg0.stack == old(arg0.stack) && $inv(arg0.stack) && $sp(arg0.stack) == old($sp(arg0.stack)) && arg0.G == old(arg0.G) && arg0.G != nil
+//@ ensures  forall i int :: 0 <= i && i < $sp(arg0.stack) ==> $frame(arg0.stack, i) == old($frame(arg0.stack, i)) && unchanged($frame(arg0.stack, i))
+//@ ensures  result <= arg0.reg.top - arg0.currentFrame.LocalBase && arg0.currentFrame.LocalBase <= arg0.reg.top
+//@ modifies everything
+
+// callGFunction: the count a host function returns selects exactly its top-most values as its results, moved to
+// ReturnBase and padded/truncated to NRet (the BLOCK-POST of the inlined CopyRange, relative to the state right after
+// the host function returned); then the frame is popped.
+//@ func callGFunction [C02 C06 C10]
+//@ requires L != nil && L.reg != nil && Inv_reg(L.reg) && L.stack != nil && $inv(L.stack) && $sp(L.stack) >= 1 && L.G != nil
+//@ requires L.currentFrame != nil && L.currentFrame == $frame(L.stack, $sp(L.stack) - 1) && L.currentFrame.Fn != nil && L.currentFrame.Fn.GFunction != nil
+//@ requires 0 <= L.currentFrame.ReturnBase && L.currentFrame.ReturnBase <= L.currentFrame.LocalBase && L.currentFrame.LocalBase <= L.reg.top && L.currentFrame.NRet >= -1
+//@ requires forall i int :: 0 <= i && i < $sp(L.stack) ==> $frame(L.stack, i) != nil && $frame(L.stack, i).Fn != nil
+//@ cut@"L.currentFrame = L.RemoveCallerFrame()" the tail-call frame removal is covered by RemoveCallerFrame's own contract, not here
+//@ cut@"switchToParentThread(L, L.GetTop(), false, false)" the yield path belongs to C06
+//@ ensures  !tailcall && !result ==> $sp(L.stack) == old($sp(L.stack)) - 1 && Inv_reg(L.reg) && L.reg == old(L.reg)
+//@ ensures  !tailcall && !result ==> (L.currentFrame == nil <==> $sp(L.stack) == 0)
+//@ ensures  L.currentFrame != nil ==> L.currentFrame.Fn != nil
 //@ modifies everything
 
 // data-structure invariant of LFunction (established by newLFunctionL/newLFunctionG, the only constructors): a Lua function has a prototype
-//@ define fnsValid() bool = forall f *LFunction :: f != nil && !f.IsG ==> f.Proto != nil
+//@ define fnsValid() bool = forall f *LFunction :: f != nil ==> (!f.IsG ==> f.Proto != nil) && (f.IsG ==> f.GFunction != nil)
 // no typed-nil pointer is ever wrapped in an LValue (type invariant of values held in registers, metatable fields and the per-type metatables)
 //@ define valOK(v LValue) bool = v != nil && (isTab(v) ==> tab(v) != nil) && (isFn(v) ==> fn(v) != nil) && (isUd(v) ==> ud(v) != nil) && (isTh(v) ==> th(v) != nil)
 //@ define mtsValid(L *LState) bool = (forall t *LTable :: valOK(t.Metatable)) && (forall u *LUserData :: valOK(u.Metatable)) && (forall k int :: valOK(L.G.builtinMts[k]) || !has(L.G.builtinMts, k))
+//@ define framesValid(L *LState) bool = forall i int :: 0 <= i && i < $sp(L.stack) ==> $frame(L.stack, i) != nil && $frame(L.stack, i).Fn != nil
 //@ define regsValid(L *LState) bool = forall k int :: 0 <= k && k < top(L) ==> valOK(L.reg.array[k])
 
 // OP_CALL: thin contract. What is proved: no implicit Go panic under the operand conditions, the call-stack
@@ -273,7 +296,7 @@ package lua
 //@ requires Frame(L) && L.stack != nil && $inv(L.stack) && L.G != nil && regsValid(L) && opA(inst) < nreg(L)
 //@ requires opB(inst) != 0 ==> lb(L) + opA(inst) + opB(inst) <= top(L)
 //@ requires opB(inst) == 0 ==> lb(L) + opA(inst) + 1 <= top(L)
-//@ requires fnsValid() && mtsValid(L)
+//@ requires fnsValid() && mtsValid(L) && framesValid(L)
 //@ cut@"nvarargs := nargs - np" the vararg relocation of the inlined initCallFrame is not verified yet
 //@ modifies everything
 
@@ -294,10 +317,10 @@ package lua
 // OP_TAILCALL: thin contract (no implicit Go panic; inlined closeUpvalues/initCallFrame/CopyRange copies satisfy
 // the contracts of their source functions).
 //@ func jumpTable[OP_TAILCALL] [C02 C03 C07 C12]
-//@ requires Frame(L) && L.stack != nil && $inv(L.stack) && L.G != nil && regsValid(L) && opA(inst) < nreg(L) && fnsValid() && mtsValid(L) && uvsValid(L)
+//@ requires Frame(L) && L.stack != nil && $inv(L.stack) && L.G != nil && regsValid(L) && opA(inst) < nreg(L) && fnsValid() && mtsValid(L) && uvsValid(L) && framesValid(L)
 //@ requires opB(inst) != 0 ==> lb(L) + opA(inst) + opB(inst) <= top(L)
 //@ requires opB(inst) == 0 ==> lb(L) + opA(inst) + 1 <= top(L)
-//@ requires 0 <= L.currentFrame.Base && L.currentFrame.Base < lb(L)
+//@ requires 0 <= L.currentFrame.ReturnBase && L.currentFrame.ReturnBase <= L.currentFrame.Base && L.currentFrame.Base < lb(L) && L.currentFrame.NRet >= -1
 //@ cut@"nvarargs := nargs - np" the vararg relocation of the inlined initCallFrame is not verified yet
 //@ modifies everything
 
